@@ -146,22 +146,6 @@ structure HSt where
   store : PStore := {}
   kept : LoadEnv := []
 
-def plainRun (W : World) (kept : LoadEnv) (rq : Request) : PRes :=
-  match W.find rq.fn with
-  | none => (.error (.dds .objectNotFound), { kept })
-  | some fn =>
-    match bindRun fn.params (rq.args.map RVal.py) (rq.kwargs.map (fun kv => (kv.1, RVal.py kv.2))) 0 with
-    | none => (.error (.exc "TypeError" rq.fn), { kept })
-    | some env =>
-      match plainFn W W.fuel { kept } fn env with
-      | (.ok v, st) =>
-        let p : Option String := match rq.kind with
-          | .keep p => some p
-          | .direct => fn.storePath
-          | .eval => none
-        (.ok v, match p with | some p => { st with kept := aset st.kept p v } | none => st)
-      | r => r
-
 def stepHistory (m : Nat) (st : HSt) (j : Json) : R (HSt × Option Json) := do
   match j.getObjVal? "world" with
   | .ok w => do
@@ -176,8 +160,7 @@ def stepHistory (m : Nat) (st : HSt) (j : Json) : R (HSt × Option Json) := do
       | some W =>
         let o := evalStep m W st.store rq
         let (pv, pst) := plainRun W st.kept rq
-        let completed := match o.value with | .ok (some _) => rq.stages.contains Stage.pathCommit | _ => false
-        let kept' := match pv with | .ok _ => (if completed then pst.kept else st.kept) | .error _ => st.kept
+        let kept' := (histStep m { store := st.store, kept := st.kept } W rq).kept
         let graphJ : Json := match analysisPhase m W st.store rq with
           | .ok (_, _, fis, _) =>
             let g := graphOf fis
